@@ -86,9 +86,9 @@ def make_binning(b, name, kind, n, **kw):
 def warm(b, binning):
     """fill the lazy caches of a binning (bins, numpy_bins, the consecutiveness answer): every contract must also hold for
     objects that have been looked at before (representation invariant: a filled cache agrees with the defining fields)"""
-    b.touch(binning, "bins")
     b.touch(binning, "numpy_bins")
     b.touch(binning, "is_consecutive", call=True)
+    b.touch(binning, "bins")          # last: reading numpy_bins may drop the cached pairs
     return binning
 
 
